@@ -54,8 +54,25 @@ impl ValuesOfCorrectType {
 
                 if let TypeDefinition::Scalar(scalar_type_def) = &type_def {
                     match (scalar_type_def.name.as_ref(), raw_value) {
-                        ("Int", Value::Int(_))
-                        | ("ID", Value::Int(_))
+                        ("Int", Value::Int(number)) => {
+                            // Int is a signed 32-bit integer
+                            let fits = number
+                                .as_i64()
+                                .map(|n| n >= i32::MIN as i64 && n <= i32::MAX as i64)
+                                .unwrap_or(false);
+                            if !fits {
+                                user_context.report_error(ValidationError {
+                                    error_code: self.error_code(),
+                                    message: format!(
+                                        "Int cannot represent non 32-bit signed integer value: {}",
+                                        raw_value
+                                    ),
+                                    locations: vec![],
+                                })
+                            }
+                            return;
+                        }
+                        ("ID", Value::Int(_))
                         | ("ID", Value::String(_))
                         | ("Float", Value::Int(_))
                         | ("Float", Value::Float(_))
@@ -125,12 +142,44 @@ impl<'a> OperationVisitor<'a, ValidationErrorContext> for ValuesOfCorrectType {
         }
     }
 
+    fn enter_list_value(
+        &mut self,
+        visitor_context: &mut OperationVisitorContext<'a>,
+        user_context: &mut ValidationErrorContext,
+        list_value: &Vec<Value>,
+    ) {
+        // A list literal is only acceptable where a list type is expected.
+        if let Some(input_type) = visitor_context.current_input_type_literal() {
+            let nullable_type = if input_type.is_non_null() {
+                input_type.of_type()
+            } else {
+                input_type
+            };
+            if !nullable_type.is_list_type() {
+                self.validate_value(
+                    visitor_context,
+                    user_context,
+                    &Value::List(list_value.clone()),
+                );
+            }
+        }
+    }
+
     fn enter_object_value(
         &mut self,
         visitor_context: &mut OperationVisitorContext<'a>,
         user_context: &mut ValidationErrorContext,
         object_value: &BTreeMap<String, Value>,
     ) {
+        // An object literal is not acceptable where a built-in scalar or an enum is expected.
+        if visitor_context.current_input_type().is_leaf_type() {
+            self.validate_value(
+                visitor_context,
+                user_context,
+                &Value::Object(object_value.clone()),
+            );
+        }
+
         if let Some(TypeDefinition::InputObject(input_object_def)) =
             visitor_context.current_input_type()
         {
